@@ -54,9 +54,12 @@ def IsIso (sel : Sel) (H P : LGraph) (m : Mapping) : Prop :=
 
 /-- Can pattern node `p` be sent to host node `h`, given the partial assignment `acc`
 (most recent first)?  Checks injectivity, the node closure, and every pattern edge between
-`p` and an already assigned node; with `induced` also every non-edge. -/
+`p` and an already assigned node; with `induced` also every non-edge (including the non-loop at
+`p` itself: a host node carrying a self-loop is never the image of a pattern node, which only
+matters for ill-formed hosts — well-formed graphs have no self-loops). -/
 def extendOk (sel : Sel) (induced : Bool) (H P : LGraph) (acc : Mapping) (p h : Nat) : Bool :=
   !(acc.any (·.2 = h)) && nodeOk sel (H.attrs h) (P.attrs p) &&
+  (!induced || !(H.hasEdge h h)) &&
   acc.all fun qh =>
     match P.edge? p qh.1 with
     | some pa => (match H.edge? h qh.2 with
